@@ -1252,3 +1252,54 @@ func isLoopFlagAtom(a an.PathAtom, name string) bool {
 	}
 	return false
 }
+
+
+// laterElementPair matches the Overlaps test of a pair loop that visits each
+// unordered pair once: x.Overlaps(y) where x is element i of a collection and
+// y an element of the sub-slice of the same collection that starts at i+1
+// (`for i, a := range s { for _, b := range s[i+1:] {…} }`): the two are
+// different elements by construction, no identity test is needed.
+func (c *Ctx) laterElementPair(a an.PathAtom) bool {
+	e := a.Cond
+	if !a.Pos || e.Op != an.OpCall || e.Fn == nil || !strings.HasSuffix(e.Fn.String(), ".Overlaps") || len(e.Args) != 2 {
+		return false
+	}
+	elemOf := func(x *an.Expr) *an.Expr {
+		// (…).Prefix of an element
+		for x != nil && x.Op == an.OpField && len(x.Args) == 1 {
+			x = x.Args[0]
+		}
+		if x != nil && x.Op == an.OpElem && len(x.Args) == 2 {
+			return x
+		}
+		return nil
+	}
+	e1, e2 := elemOf(e.Args[0]), elemOf(e.Args[1])
+	if e1 == nil || e2 == nil {
+		return false
+	}
+	try := func(outer, inner *an.Expr) bool {
+		if inner.Args[0].Op != an.OpSlice || len(inner.Args[0].Args) != 1 {
+			return false
+		}
+		sl, ok := inner.Args[0].V.(*ssa.Slice)
+		if !ok || sl.Low == nil || sl.High != nil {
+			return false
+		}
+		if inner.Args[0].Args[0].String() != outer.Args[0].String() {
+			return false // not the same collection
+		}
+		// low is "index of the outer element" + 1, as SSA values
+		bo, ok := sl.Low.(*ssa.BinOp)
+		if !ok || bo.Op != token.ADD {
+			return false
+		}
+		one := func(v ssa.Value) bool {
+			k, isC := v.(*ssa.Const)
+			return isC && k.Value != nil && k.Int64() == 1
+		}
+		idx := outer.Args[1].V
+		return idx != nil && ((bo.X == idx && one(bo.Y)) || (bo.Y == idx && one(bo.X)))
+	}
+	return try(e1, e2) || try(e2, e1)
+}
